@@ -689,9 +689,10 @@ func (p *Parser) parseProviderType(pkg *packages.Package, providerType types.Typ
 // Fields are returned in alphabetical order by name for deterministic output.
 // Unexported fields are ignored.
 func extractExportedFields(t types.Type) ([]*StructFieldSpec, error) {
-	// Dereference pointer type if needed
-	underlying := t
-	if ptr, ok := t.(*types.Pointer); ok {
+	// Dereference pointer type if needed; the type may be spelled through an alias
+	// (type ConfigRef = *Config)
+	underlying := types.Unalias(t)
+	if ptr, ok := underlying.(*types.Pointer); ok {
 		underlying = ptr.Elem()
 	}
 
